@@ -316,6 +316,10 @@ func (w *WAL) FirstIndex() (uint64, error) {
 	}
 	s, release := w.acquireState()
 	defer release()
+	// Close may have swapped in the empty state since we checked.
+	if err := w.checkClosed(); err != nil {
+		return 0, err
+	}
 	return s.firstIndex(), nil
 }
 
@@ -326,6 +330,10 @@ func (w *WAL) LastIndex() (uint64, error) {
 	}
 	s, release := w.acquireState()
 	defer release()
+	// Close may have swapped in the empty state since we checked.
+	if err := w.checkClosed(); err != nil {
+		return 0, err
+	}
 	return s.lastIndex(), nil
 }
 
@@ -336,6 +344,10 @@ func (w *WAL) GetLog(index uint64, log *raft.Log) error {
 	}
 	s, release := w.acquireState()
 	defer release()
+	// Close may have swapped in the empty state since we checked.
+	if err := w.checkClosed(); err != nil {
+		return err
+	}
 	w.metrics.IncrementCounter("log_entries_read", 1)
 
 	raw, err := s.getLog(index)
@@ -369,6 +381,11 @@ func (w *WAL) StoreLogs(logs []*raft.Log) error {
 	// Ensure queued rotation has completed before us if we raced with it for
 	// write lock.
 	w.awaitRotationLocked()
+
+	// Close may have completed while we waited for the lock or the rotation.
+	if err := w.checkClosed(); err != nil {
+		return err
+	}
 
 	s, release := w.acquireState()
 	defer release()
@@ -476,6 +493,11 @@ func (w *WAL) DeleteRange(min uint64, max uint64) error {
 	// Ensure queued rotation has completed before us if we raced with it for
 	// write lock.
 	w.awaitRotationLocked()
+
+	// Close may have completed while we waited for the lock or the rotation.
+	if err := w.checkClosed(); err != nil {
+		return err
+	}
 
 	s, release := w.acquireState()
 	defer release()
